@@ -764,6 +764,34 @@ def random_history(rng, names, n_steps):
     return {'objects': objs, 'steps': steps}
 
 
+def run_batch(ctx, w, workdir):
+    """w = {'objects', 'batch': [failing step, succeeding step], 'version'}: both items in ONE request (CONTINUE)."""
+    eng = fresh_engine(workdir)
+    try:
+        for s in w['objects']:
+            make_object(eng, s)
+        pre, _ = observe(eng)
+        bad, good = w['batch']
+        ver = tuple(w['version'])
+        r = eng.request([build_item(bad), build_item(good)], version=ver, user='alice',
+                        batch_option=enums.BatchErrorContinuationOption.CONTINUE)
+        if r['error'] is not None or len(r['items']) != 2:
+            raise RuntimeError('batch of two attribute items was not answered item by item: %r' % (r['error'],))
+        ok1, ok2 = kdrv.ok(r['items'][0]), kdrv.ok(r['items'][1])
+        post, _ = observe(eng)
+        if not ok1 and ok2:
+            exp = expected_after_success(good, ver, pre[0])
+            want = [dict(o) for o in pre]
+            want[0][exp[0]] = exp[1]
+            if want != post:
+                ctx.violation(sig_of(bad, ver, 'failed-batch-item-left-trace'),
+                              dict(w, before=pre, after=post, results=[r['items'][0]['reason'], 'SUCCESS']),
+                              'a failed attribute item changed what a later item of the same batch committed')
+        return ok1, ok2
+    finally:
+        eng.close()
+
+
 def batch_frame_oracle(ctx, rng, workdir, rounds):
     """A failed attribute item followed by a succeeding one in the same batch (shared SQLAlchemy session, CONTINUE):
     the failed item must leave no trace in what the later commit writes."""
@@ -772,13 +800,19 @@ def batch_frame_oracle(ctx, rng, workdir, rounds):
         eng = fresh_engine(workdir)
         try:
             spec = base_objects(rng, rng.choice(list(TYPES)))
-            for s in spec:
-                make_object(eng, s)
-            pre, _ = observe(eng)
+            sens_case = rng.random() < 0.35
+            if sens_case:
+                spec[0]['sens'] = True
             name = rng.choice(CHANGEABLE)
             v2 = rng.random() < 0.5
-            ver = V2 if v2 else rng.choice(V1)
-            if v2:
+            ver = V2 if v2 else (rng.choice(V1) if not sens_case else (1, 4))
+            if sens_case:
+                # the overwrite rule refuses to clear a set Sensitive flag: the refusal must not leave the flag cleared in the
+                # session that the next item commits
+                bad = ({'form': rng.choice(['set', 'mod']), 'new': ['Sensitive', ['B', False]]} if v2
+                       else {'form': 'mod', 'attr': ['Sensitive', None, ['B', False]]})
+                good = {'form': 'del', 'ref': 'Object Group'} if v2 else {'form': 'mod', 'attr': ['Object Group', 0, ['T', 'q']]}
+            elif v2:
                 bad = rng.choice([
                     {'form': 'mod', 'new': [name, value_for(name, rng)], 'cur': ['T', 'zz'] if name in ('Name', 'Object Group') else (['A', 'z', 'z'] if name != 'Sensitive' else ['B', True])},
                     {'form': 'del', 'cur': [name, ['T', 'zz'] if name != 'Application Specific Information' else ['A', 'z', 'z']]},
@@ -792,25 +826,15 @@ def batch_frame_oracle(ctx, rng, workdir, rounds):
                 good = {'form': 'mod', 'attr': ['Object Group', 0, ['T', 'q']]}
             for s in (bad, good):
                 s.update({'k': 'attr', 'ver': ver, 'user': 'alice', 'uid': '1'})
-            r = eng.request([build_item(bad), build_item(good)], version=ver, user='alice',
-                            batch_option=enums.BatchErrorContinuationOption.CONTINUE)
-            if r['error'] is not None or len(r['items']) != 2:
-                raise RuntimeError('batch of two attribute items was not answered item by item: %r' % (r['error'],))
-            ok1, ok2 = kdrv.ok(r['items'][0]), kdrv.ok(r['items'][1])
-            post, _ = observe(eng)
+            eng.close()
+            eng = None
+            ok1, ok2 = run_batch(ctx, {'objects': spec, 'batch': [bad, good], 'version': list(ver)}, workdir)
             ctx.count('batch.%s.%s' % ('ok' if ok1 else 'fail', 'ok' if ok2 else 'fail'))
             n += 1
             ctx.case_seen(('batch', json.dumps(bad, sort_keys=True), json.dumps(good, sort_keys=True), spec[0]['type']), nontrivial=not ok1 and ok2)
-            if not ok1 and ok2:
-                exp = expected_after_success(good, ver, pre[0])
-                want = [dict(o) for o in pre]
-                want[0][exp[0]] = exp[1]
-                if want != post:
-                    ctx.violation(sig_of(bad, ver, 'failed-batch-item-left-trace'),
-                                  {'objects': spec, 'batch': [bad, good], 'version': ver, 'before': pre, 'after': post},
-                                  'a failed attribute item changed what a later item of the same batch committed')
         finally:
-            eng.close()
+            if eng is not None:
+                eng.close()
     return n
 
 
@@ -927,8 +951,12 @@ def replay(ctx, data):
     w = data.get('input') or {}
     hist = w.get('history')
     if hist is None and 'batch' in w:
-        print('batch witness:', json.dumps(w, indent=1, default=str)[:3000])
-        return 1
+        ok1, ok2 = run_batch(ctx, {'objects': w['objects'], 'batch': w['batch'], 'version': w['version']}, ctx.work)
+        print('batch items:', 'SUCCESS' if ok1 else 'failed', 'SUCCESS' if ok2 else 'failed')
+        print('violations reproduced:', len(ctx.violations))
+        for v in ctx.violations[:5]:
+            print(' -', v['what'], json.dumps(v['signature'], sort_keys=True))
+        return 1 if ctx.violations else 0
     if hist is None:
         cands = data.get('first_disagreeing_cases') or []
         if cands:
